@@ -15,15 +15,29 @@ thread_local! {
     /// "unit mode" of the current trace: elements are lengths written in two different units
     /// (`3 m` / `300 cm`), i.e. values that are `==` for numbat but print differently
     static UNITS: std::cell::Cell<bool> = const { std::cell::Cell::new(false) };
+    /// "string mode": elements are strings (a non-scalar element type; `split` builds lists
+    /// through the VM's conversion from a deque of values)
+    static STRINGS: std::cell::Cell<bool> = const { std::cell::Cell::new(false) };
 }
 
 fn units_mode() -> bool {
     UNITS.with(|u| u.get())
 }
 
+fn strings_mode() -> bool {
+    STRINGS.with(|u| u.get())
+}
+
+/// unit mode or string mode: only structural list operations make sense
+fn structural_mode() -> bool {
+    units_mode() || strings_mode()
+}
+
 /// Element text. Unit mode: x >= 0 is `x m`, x < 0 is `-x cm`.
 fn el(x: i64) -> String {
-    if !units_mode() {
+    if strings_mode() {
+        format!("\"e{x}\"")
+    } else if !units_mode() {
         x.to_string()
     } else if x >= 0 {
         format!("{x} m")
@@ -105,6 +119,12 @@ fn eval_list(e: &Value, env: &BTreeMap<String, Vec<i64>>) -> Option<Result<Vec<i
             .filter_map(|x| x.as_i64())
             .collect(),
         "var" => env.get(a.get(1)?.as_str()?)?.clone(),
+        "split" => a
+            .get(1)?
+            .as_array()?
+            .iter()
+            .filter_map(|x| x.as_i64())
+            .collect(),
         "cons" => {
             let mut v = tr!(sub(2));
             v.insert(0, num(1)?);
@@ -207,6 +227,15 @@ fn render_list(e: &Value) -> String {
                 .join(", ")
         ),
         "var" => a[1].as_str().unwrap().to_string(),
+        "split" => format!(
+            "split(\"{}\", \",\")",
+            a[1].as_array()
+                .unwrap()
+                .iter()
+                .map(|x| format!("e{}", x.as_i64().unwrap()))
+                .collect::<Vec<_>>()
+                .join(",")
+        ),
         "cons" => format!("cons({}, {})", el(n(1)), r(2)),
         "cons_end" => format!("cons_end({}, {})", el(n(1)), r(2)),
         "tail" => format!("tail({})", r(1)),
@@ -258,8 +287,14 @@ fn shown_bool(b: bool) -> String {
     shown(if b { "1 == 1" } else { "1 == 2" })
 }
 
+/// How numbat prints `expr` as an element of a list (strings are quoted there, not by `print`).
+fn shown_in_list(expr: &str) -> String {
+    let t = shown(&format!("[{expr}]"));
+    t.strip_prefix('[').and_then(|x| x.strip_suffix(']')).map(|x| x.to_string()).unwrap_or(t)
+}
+
 fn fmt_list(v: &[i64]) -> String {
-    format!("[{}]", v.iter().map(|x| shown(&el(*x))).collect::<Vec<_>>().join(", "))
+    format!("[{}]", v.iter().map(|x| shown_in_list(&el(*x))).collect::<Vec<_>>().join(", "))
 }
 
 type Env = BTreeMap<String, Vec<i64>>;
@@ -359,7 +394,7 @@ fn nested_step(st: &Value, env: &Env, nenv: &NEnv) -> Option<(String, Result<Nes
 }
 
 fn gen_list_expr(rng: &mut Rng, vars: &[String], depth: u32, next_val: &mut i64) -> Value {
-    if units_mode() {
+    if structural_mode() {
         return gen_list_expr_units(rng, vars, depth, next_val);
     }
     let leaf = depth == 0 || rng.chance(0.25);
@@ -420,7 +455,15 @@ thread_local! {
 fn gen_list_expr_units(rng: &mut Rng, vars: &[String], depth: u32, next_val: &mut i64) -> Value {
     let new_elem = |rng: &mut Rng, nv: &mut i64| -> i64 {
         let pool: Vec<i64> = POOL.with(|p| p.borrow().clone());
-        let v = if !pool.is_empty() && rng.chance(0.4) {
+        let v = if strings_mode() {
+            // strings: sometimes an element that already exists somewhere (equal AND identical)
+            if !pool.is_empty() && rng.chance(0.3) {
+                *rng.pick(&pool)
+            } else {
+                *nv += 1;
+                *nv
+            }
+        } else if !pool.is_empty() && rng.chance(0.4) {
             twin(*rng.pick(&pool))
         } else {
             *nv += 1;
@@ -436,6 +479,10 @@ fn gen_list_expr_units(rng: &mut Rng, vars: &[String], depth: u32, next_val: &mu
         }
         let n = rng.range(1, 4);
         let vals: Vec<i64> = (0..n).map(|_| new_elem(rng, next_val)).collect();
+        if strings_mode() && rng.chance(0.4) {
+            // the same list, built by splitting a string (list made by the library / FFI)
+            return json!(["split", vals]);
+        }
         return json!(["lit", vals]);
     }
     let sub = |rng: &mut Rng, nv: &mut i64| gen_list_expr_units(rng, vars, depth - 1, nv);
@@ -461,8 +508,11 @@ fn gen_list_expr_units(rng: &mut Rng, vars: &[String], depth: u32, next_val: &mu
 }
 
 pub fn generate(rng: &mut Rng) -> Value {
-    let units = rng.chance(0.4);
+    let mode = rng.below(10);
+    let units = mode < 4;
+    let strings = (4..6).contains(&mode);
     UNITS.with(|u| u.set(units));
+    STRINGS.with(|u| u.set(strings));
     POOL.with(|p| p.borrow_mut().clear());
     let n_steps = rng.range(4, 24) as usize;
     let mut steps = vec![];
@@ -555,7 +605,9 @@ pub fn generate(rng: &mut Rng) -> Value {
             let vars: Vec<String> = sessions[s].as_ref().unwrap().keys().cloned().collect();
             let depth = rng.range(0, 3) as u32;
             let e = gen_list_expr(rng, &vars, depth, &mut next_val);
-            let kind = if units {
+            let kind = if strings {
+                *rng.pick(&["head", "len", "eq", "element_at", "join"])
+            } else if units {
                 *rng.pick(&["head", "len", "eq", "element_at"])
             } else {
                 *rng.pick(&["head", "len", "sum", "eq", "element_at"])
@@ -571,7 +623,8 @@ pub fn generate(rng: &mut Rng) -> Value {
         }
     }
     UNITS.with(|u| u.set(false));
-    json!({"format": 1, "property": "C18", "level": "interp", "units": units, "steps": steps})
+    STRINGS.with(|u| u.set(false));
+    json!({"format": 1, "property": "C18", "level": "interp", "units": units, "strings": strings, "steps": steps})
 }
 
 fn count_vars(e: &Value, out: &mut Vec<String>) {
@@ -600,6 +653,11 @@ pub fn exec(w: &mut InterpWorker, trace: &Value, res: &mut ExecResult) {
     }
     let units = trace["units"].as_bool().unwrap_or(false);
     UNITS.with(|u| u.set(units));
+    let strings = trace["strings"].as_bool().unwrap_or(false);
+    STRINGS.with(|u| u.set(strings));
+    if strings {
+        res.bump("interp.runs_with_string_elements");
+    }
     RENDER_SESS.with(|s| {
         if s.borrow().is_none() {
             *s.borrow_mut() = Some(base.clone());
@@ -721,6 +779,10 @@ pub fn exec(w: &mut InterpWorker, trace: &Value, res: &mut ExecResult) {
                         "head" => (
                             format!("print(head({text_e}))"),
                             model.clone().and_then(|v| v.first().map(|x| shown(&el(*x))).ok_or(())),
+                        ),
+                        "join" => (
+                            format!("print(join({text_e}, \"+\"))"),
+                            model.clone().map(|v| v.iter().map(|x| format!("e{x}")).collect::<Vec<_>>().join("+")),
                         ),
                         "len" => (
                             format!("print(len({text_e}))"),
@@ -857,6 +919,7 @@ pub fn exec(w: &mut InterpWorker, trace: &Value, res: &mut ExecResult) {
         }
     }
     UNITS.with(|u| u.set(false));
+    STRINGS.with(|u| u.set(false));
     res.fingerprint = fp.0;
     res.nontrivial = nontrivial;
 }
